@@ -363,7 +363,8 @@ macro_rules! impl_rank_small {
                             count.set_rel(j / Self::WORDS_PER_SUBBLOCK, rel_count);
                         }
                         if i + j < num_words {
-                            past_ones += masked_word(bits.as_ref(), i + j, num_bits).count_ones() as usize;
+                            past_ones +=
+                                masked_word(bits.as_ref(), i + j, num_bits).count_ones() as usize;
                         }
                     }
 
